@@ -123,6 +123,10 @@ def _same_data(v, D):
 
 def check(ctx):
     p = ctx.prog
+    # all arithmetic behind this property happens in the numeric type T of the instantiation
+    single_precision(ctx, 'prec.single_type', ['hep::vegas_pdf::', 'hep::vegas_icdf', 'hep::vegas_refine_pdf', 'hep::vegas_chkpt::'], 1)
+    # no constructor of the classes this property computes with leaves a member indeterminate
+    members_initialised(ctx, 'init.members', ['hep::vegas_pdf'], 2)
     ctx.assume('canonical random numbers lie in the closed interval [0,1] (the defensive assumption '
                'the code itself makes); bins >= 2; real arithmetic: u <= 1-eps implies u*bins < bins')
     # ---------------------------------------------------------------- R1 vegas_icdf index range
@@ -170,6 +174,28 @@ def check(ctx):
         else:
             ctx.violation('R1.reads', where, 'grid boundaries other than index / index+1 of the row are read',
                           {'reads': sorted(T.pretty(t)[:200] for t in got)})
+        # a bin of zero width (two equal neighbouring boundaries, which a long adaptation produces and a valid
+        # grid may contain) must yield exactly its boundary: `left + p*(right - left)` does (p*0 = 0, x + 0 = x are
+        # exact in IEEE arithmetic), `(1-p)*left + p*right` rounds twice and leaves the bin it reports
+        if rn['kind'] == 'map':
+            left_, right_ = sel(xs, add(row, idx)), sel(xs, add(row, add(idx, ONE)))
+            cmap = {}
+            for t in T.subterms(rn['body']):
+                if isinstance(t, tuple) and t and t[0] == 'sel' and t[1] == xs:
+                    cmap[t] = sym('_boundary')      # which boundaries are read is decided by R1.reads
+            collapsed = _ieee_exact(T.subst(rn['body'], cmap))
+            ops = set(t[0] for t in T.subterms(collapsed) if isinstance(t, tuple) and t and t[0] not in
+                      ('num', 'sym', 'sel', 'pre', 'trunc', 'fld', 'ite', '<', '<=', '==', '!=', '>', '>=', 'fn'))
+            if collapsed == sym('_boundary'):
+                ctx.holds('R1.collapsed_bin_exact', where, 'for a bin of zero width the sampled coordinate is exactly '
+                          'the boundary (only exact IEEE identities used): the point lies in the bin reported for it')
+            elif ops - {'+', '-', '*', '/'}:
+                raise AnalysisBroken('coordinate formula of vegas_icdf uses operations whose rounding is not modelled: %s'
+                                     % sorted(ops - {'+', '-', '*', '/'}))
+            else:
+                ctx.violation('R1.collapsed_bin_exact', where, 'for a bin of zero width (left == right == a) the sampled '
+                              'coordinate is not exactly a in floating-point arithmetic: the point leaves the bin that is '
+                              'reported for it', {'coordinate_for_left_eq_right': T.pretty(collapsed)[:300]})
         b = upd_by_loc(ls, ('lv', f.params[2].id, ()))
         if b is not None and b['kind'] == 'map':
             stored = b['body']
@@ -448,6 +474,34 @@ def check(ctx):
             if len(fill) != 1:
                 raise AnalysisBroken('uniform fill loop of vegas_pdf(dimensions, bins) not recognised')
             body = fill[0][1]['body']
+            # the other dimensions: every loop of the constructor that writes x besides the fill must copy the
+            # first dimension block-wise to dimension i, for every i in [1, dimensions)
+            S = add(B, ONE)
+            others = [(l, upd_by_loc(l, xlv)) for l in sc.loops if l.func is c and l is not fill[0][0]
+                      and upd_by_loc(l, xlv) is not None and upd_by_loc(l, xlv)['kind'] != 'same']
+            if T.canon(T.size(fill[0][1]['init'])) != T.canon(mul(D, S)) and \
+                    T.canon(T.size(fill[0][1]['init'])) != T.canon(mul(S, D)):
+                ctx.violation('R3.replicated', fsite(c), 'the default grid does not hold dimensions x (bins + 1) '
+                              'boundaries', {'size': T.pretty(T.size(fill[0][1]['init']))[:120]})
+            elif len([o for o in others if 'copy' in o[1]]) != 1 or \
+                    [o for o in others if 'copy' not in o[1] and o[1]['kind'] != 'blockcopy']:
+                raise AnalysisBroken('the loop that copies the first dimension of the default grid to the others '
+                                     'is not recognised')
+            else:
+                lr, ur = [o for o in others if 'copy' in o[1]][0]
+                cp = ur['copy']
+                ok_r = cp['self'] and T.canon(cp['dst']) == T.canon(mul(lr.idx, S)) and cp['a'] == ZERO and \
+                    T.canon(cp['b']) == T.canon(S) and lr.lo in (ZERO, ONE) and lr.hi == D and \
+                    sc.loops.index(lr) > sc.loops.index(fill[0][0])
+                if ok_r:
+                    ctx.holds('R3.replicated', fsite(c), 'boundaries [0, bins] of the first dimension are copied to '
+                              'offset i x (bins + 1) for every dimension i in [1, dimensions)')
+                else:
+                    ctx.violation('R3.replicated', fsite(c), 'the first dimension of the default grid is not '
+                                  'replicated to every other dimension at offset i x (bins + 1)',
+                                  {'destination': T.pretty(cp['dst'])[:120], 'source': '[%s, %s)' % (
+                                      T.pretty(cp['a'])[:60], T.pretty(cp['b'])[:60]),
+                                   'dimensions': '[%s, %s)' % (T.pretty(lr.lo), T.pretty(lr.hi))})
             fill = [fill[0][0]]
             k = fill[0].idx
             check_equal(ctx, 'R3.uniform_left_end', fsite(c), 'first boundary of the default grid',
